@@ -387,6 +387,80 @@ Theorem C14_bisect_endpoint_root :
 Proof. exact bisect_endpoint_root. Qed.
 Print Assumptions C14_bisect_endpoint_root.
 
+(** flax cg_solver IS conjugate gradient: a finite result of the scan (any scalars, real or complex) is the
+    maxiter-th iterate of the SAME loop body [cg_step] that scico.solver.cg runs, with M = identity -- so num is
+    sum(conj(r) * r) (with the conjugation), and alpha, beta are the CG coefficients. [kdivo] = [kdiv] where defined. *)
+Theorem C14_cg_solver_is_cg_iterate :
+  forall (K V : Type) (vadd vsub : V -> V -> V) (vscale : K -> V -> V) (kdiv : K -> K -> K)
+         (ip : V -> V -> K) (A M : V -> V) (kdivo : K -> K -> option K),
+       (forall v : V, M v = v) ->
+       (forall a c q : K, kdivo a c = Some q -> q = kdiv a c) ->
+       forall (maxiter : nat) (b x0 x : V),
+       cg_solver K V vadd vsub vscale ip A kdivo maxiter b x0 = Some x ->
+       x = sx K V (iter K V vadd vsub vscale kdiv ip A M maxiter (cg_init K V vsub ip A M b x0)).
+Proof. exact cg_solver_is_cg_iterate. Qed.
+Print Assumptions C14_cg_solver_is_cg_iterate.
+
+(** the same for the executable complex instance the harness runs (Gaussian rationals): nothing assumed. *)
+Theorem C14_cg_solver_complex_instance :
+  forall (n : nat) (A : list (list (Q * Q))) (b x0 : list (Q * Q)) (maxiter : nat) (x : Vn C n),
+       c_cg_solver n A b x0 maxiter = Some x ->
+       x =
+       sx C (Vn C n)
+         (iter_mat C C0 Cadd Cmul Csub Cconj Cdiv n (cmat n A) (fun v : tup C n => v) maxiter 
+            (cvec n b) (cvec n x0)).
+Proof. exact c_cg_solver_is_cg_iterate. Qed.
+Print Assumptions C14_cg_solver_complex_instance.
+
+(** MatrixATADSolver.__init__/solve: for EVERY value of the constructor flags (cho_factor, lower) the stored
+    factorisation, used through fact_solve, inverts the factorised matrix -- because the flag kept with the Cholesky
+    factor is the one it was computed with (library contract cho_contract: cho_solve((cho_factor(G, lower), lower), .)
+    inverts G; lu likewise).  check_finite only validates input. *)
+Theorem C14_matrixATAD_factorisation_flags :
+  forall (Z F : Type) (G : Z -> Z) (cho_fac : bool -> F) (cho_solve : F -> bool -> Z -> Z) 
+         (lu_fac : F) (lu_solve : F -> Z -> Z),
+       (forall (lower : bool) (y : Z), G (cho_solve (cho_fac lower) lower y) = y) ->
+       (forall y : Z, G (lu_solve lu_fac y) = y) ->
+       forall (cho lower : bool) (y : Z),
+       G (fact_solve Z F cho_solve lu_solve (atad_init F cho_fac lu_fac cho lower) y) = y.
+Proof. exact fact_solve_inverts. Qed.
+Print Assumptions C14_matrixATAD_factorisation_flags.
+
+(** Woodbury path solves (A^H W A + D) x = b for every (cho_factor, lower). *)
+Theorem C14_matrixATAD_woodbury_all_flags :
+  forall (X Y F : Type) (xadd xsub : X -> X -> X) (yadd ysub : Y -> Y -> Y),
+       (forall a t : Y, ysub (yadd a t) t = a) ->
+       (forall a b : X, xadd a (xsub b a) = b) ->
+       forall (A : X -> Y) (AH : Y -> X) (W Winv : Y -> Y) (D Dinv : X -> X),
+       (forall u v : X, A (xsub u v) = ysub (A u) (A v)) ->
+       (forall u v : X, Dinv (xsub u v) = xsub (Dinv u) (Dinv v)) ->
+       (forall u : X, D (Dinv u) = u) ->
+       (forall u : Y, W (Winv u) = u) ->
+       forall (cho_fac_w : bool -> F) (cho_solve_w : F -> bool -> Y -> Y) (lu_fac_w : F)
+         (lu_solve_w : F -> Y -> Y),
+       (forall (lower : bool) (y : Y), Gw X Y yadd A AH Winv Dinv (cho_solve_w (cho_fac_w lower) lower y) = y) ->
+       (forall y : Y, Gw X Y yadd A AH Winv Dinv (lu_solve_w lu_fac_w y) = y) ->
+       forall (cho lower : bool) (b : X),
+       sysop X Y xadd A AH W D
+         (solve_woodbury X Y xsub A AH Dinv
+            (fact_solve Y F cho_solve_w lu_solve_w (atad_init F cho_fac_w lu_fac_w cho lower)) b) = b.
+Proof. exact atad_woodbury_all_flags. Qed.
+Print Assumptions C14_matrixATAD_woodbury_all_flags.
+
+(** direct path solves (A^H W A + D) x = b for every (cho_factor, lower). *)
+Theorem C14_matrixATAD_direct_all_flags :
+  forall (X Y F : Type) (xadd : X -> X -> X) (A : X -> Y) (AH : Y -> X) (W : Y -> Y) 
+         (D : X -> X) (cho_fac_d : bool -> F) (cho_solve_d : F -> bool -> X -> X) 
+         (lu_fac_d : F) (lu_solve_d : F -> X -> X),
+       (forall (lower : bool) (b : X), sysop X Y xadd A AH W D (cho_solve_d (cho_fac_d lower) lower b) = b) ->
+       (forall b : X, sysop X Y xadd A AH W D (lu_solve_d lu_fac_d b) = b) ->
+       forall (cho lower : bool) (b : X),
+       sysop X Y xadd A AH W D
+         (solve_direct X (fact_solve X F cho_solve_d lu_solve_d (atad_init F cho_fac_d lu_fac_d cho lower)) b) =
+       b.
+Proof. exact atad_direct_all_flags. Qed.
+Print Assumptions C14_matrixATAD_direct_all_flags.
+
 (** ------------------------------------------------------------------ non-vacuity *)
 Local Open Scope R_scope.
 
@@ -500,3 +574,13 @@ Print Assumptions C14_gen_cg_loop.
 Example C14_bisect_endpoint_example :
   (fun x : R => x) 0 = 0 /\ (fun x : R => 4 - x) 4 = 0 /\ 0 <= 4.
 Proof. repeat split; lra. Qed.
+
+(** cg_solver on a complex Hermitian system: 2 scan steps give the exact solution [1/5 - 3i/10, 7/10 + i/2]
+    (the same values as C14_cg_exec_example_complex: it is the same CG) *)
+Example C14_cg_solver_complex_example :
+  match c_cg_solver 2 [[(4#1, 0#1); (1#1, 1#1)]; [(1#1, (-1)#1); (3#1, 0#1)]]
+                    [(1#1, 0#1); (2#1, 1#1)] [(0#1, 0#1); (0#1, 0#1)] 2 with
+  | Some x => map (fun z => (this (fst z), this (snd z))) (to_list 2 x) = [(1 # 5, (-3) # 10); (7 # 10, 1 # 2)]%Q
+  | None => False
+  end.
+Proof. vm_compute. reflexivity. Qed.
